@@ -7,7 +7,7 @@ r = json.load(open('/verif/seeded/RESULTS.json'))
 rows = ['### 5.1 Results (from seeded/RESULTS.json)', '',
         '| seeded change | property | what it does | needs | check | outcome | violation signatures |',
         '|---|---|---|---|---|---|---|']
-n_caught = n_mut = n_ctrl_clean = n_ctrl = 0
+n_caught = n_mut = n_ctrl_clean = n_ctrl = n_oos = 0
 for k in sorted(r):
     v = r[k]
     try:
@@ -15,7 +15,10 @@ for k in sorted(r):
     except Exception:
         meta = {}
     ctrl = bool(meta.get('control'))
-    if ctrl:
+    if meta.get('out_of_scope'):
+        n_oos += 1
+        outcome = ('not caught' if v['exit'] == 0 else 'caught') + ' (outside the fault model: %s)' % meta['out_of_scope'][:90]
+    elif ctrl:
         n_ctrl += 1
         n_ctrl_clean += v['exit'] == 0
         outcome = 'clean (control: must not be flagged)' if v['exit'] == 0 else 'FLAGGED (control!)'
@@ -26,7 +29,7 @@ for k in sorted(r):
     rows.append('| %s | %s | %s | %s | %s | %s | %s |' % (
         k, v['property'], str(meta.get('summary', '')).replace('|', '/')[:160], str(meta.get('needs_to_manifest', '')).replace('|', '/')[:160],
         v['check'], outcome, ', '.join('`%s`' % s for s in v['signatures'][:3])))
-rows += ['', 'Totals: %d of %d property-breaking changes caught by the quick tier; %d of %d controls clean.' % (n_caught, n_mut, n_ctrl_clean, n_ctrl), '']
+rows += ['', 'Totals: %d of %d property-breaking changes caught by the quick tier; %d of %d controls clean; %d change(s) outside the fault model.' % (n_caught, n_mut, n_ctrl_clean, n_ctrl, n_oos), '']
 s = open('/verif/DESIGN.md').read()
 s = re.sub(r'<!-- RESULTS-TABLE-BEGIN -->.*?<!-- RESULTS-TABLE-END -->',
            lambda m: '<!-- RESULTS-TABLE-BEGIN -->\n' + '\n'.join(rows) + '\n<!-- RESULTS-TABLE-END -->', s, flags=re.S)
